@@ -146,6 +146,10 @@ theorem processAll_preserves (P : St → Prop)
     exact processAll_preserves P h1 h2 h3 h4 h5 h6 rest _ (process_preserves P h1 h2 h3 h4 h5 h6 m s mid seq h)
 end
 
+/-- strike one occurrence of every acknowledged id off the list of owed acknowledgements (a message
+delivered twice is owed two acknowledgements: the client answers each delivery) -/
+def strike (owed : List Nat) (ids : List Nat) : List Nat := ids.foldl (fun o i => o.erase i) owed
+
 def step (s : St) : Ev → Option St
   | .send c id seq salt =>
     -- msg_id: a multiple of four, larger than everything written before; seq_no odd (content-related),
@@ -158,7 +162,7 @@ def step (s : St) : Ev → Option St
     else none
   | .ack id seq ids =>
     if id % 4 = 0 ∧ s.lastId < id ∧ seq % 2 = 0 ∧ s.lastSeq ≤ seq ∧ ids ≠ [] ∧ ids.all (fun i => s.owedAck.contains i) then
-      some { s with lastId := id, lastSeq := seq, owedAck := s.owedAck.filter (fun i => !ids.contains i),
+      some { s with lastId := id, lastSeq := seq, owedAck := strike s.owedAck ids,
                     acked := ids ++ s.acked, wire := (id, seq) :: s.wire }
     else none
   | .recv mid seq m => some (process s mid seq m)
